@@ -170,14 +170,13 @@ func runC15(c *Ctx) {
 		}
 	}
 	// (b) attribution through the streamer
-	runAttribution(c)
+	runAttribution(c, "C15", c.N(25, 500))
 	runReshaped(c)
 }
 
 // runAttribution: table-id re-announcements inside and across transactions, and mapper disagreements.
-func runAttribution(c *Ctx) {
+func runAttribution(c *Ctx, prop string, nh int) {
 	r := c.Rng
-	nh := c.N(25, 500)
 	for hi := 0; hi < nh; hi++ {
 		cfg := baseCfg(r, r.Intn(len(baseCfgs)))
 		o := histOpts{units: 3 + r.Intn(6), maxCols: 3, maxRows: 2, rotations: hi%4 == 0, ignorables: false,
@@ -230,9 +229,9 @@ func runAttribution(c *Ctx) {
 		}
 		h.encode(c)
 		c.R.Count(fmt.Sprintf("attribution/%s/tables%d/rot%v", mode, len(h.tables), o.rotations))
-		checkFullRun(c, "C15", h, "attribution")
+		checkFullRun(c, prop, h, "attribution")
 		// a mapper table whose column count disagrees is rejected, nothing from it is delivered
-		if hi%2 == 0 && len(h.txs) > 0 {
+		if prop == "C15" && hi%2 == 0 && len(h.txs) > 0 {
 			f0, o0 := startOf(h)
 			a := fullAttempt(h, c, f0, o0)
 			t := h.tables[r.Intn(len(h.tables))]
